@@ -837,6 +837,27 @@ export class TypeGen {
       parsers.push({ name, t });
       cores.set(name, core);
     }
+    // near twins: two parsers whose types differ in ONE mark only (the optional mark of an index
+    // signature's value, of a property, a rest element, readonly) - whatever shares sub-validators
+    // between equal types (hoisting) must keep them apart
+    if (this.f.records !== false && r.chance(0.12)) {
+      const V = this.scalarLeaf();
+      const K = r.pick([A.kw("string"), { k: "tpl", parts: ["x", A.kw("string")] }]);
+      const twins = r.pick([
+        [A.util("Record", [K, V]), A.util("Partial", [A.util("Record", [K, V])])],
+        [A.obj([], { key: A.kw("string"), val: V, pname: "k" }), { k: "mapped", param: "P", constraint: A.kw("string"), val: V, opt: true, ro: false, plus: false }],
+        [A.obj([A.prop("tw", V), A.prop("n", A.kw("number"))]), A.obj([A.prop("tw", V, true), A.prop("n", A.kw("number"))])],
+        [A.tuple([V, A.kw("number")]), A.tuple([V, A.kw("number")], A.kw("string"))],
+      ]);
+      const order = r.chance(0.5) ? [0, 1] : [1, 0];
+      for (const j of order) {
+        const core = this.tryNorm(twins[j]);
+        if (core == null) continue;
+        const name = `TW${j}`;
+        parsers.push({ name, t: twins[j] });
+        cores.set(name, core);
+      }
+    }
     if (parsers.length === 0) {
       parsers.push({ name: "P0", t: A.kw("string") });
       cores.set("P0", C.string);
